@@ -59,7 +59,7 @@ func c19InitPool() {
 }
 
 func c19Pub(i int) *btcec.PublicKey { c19InitPool(); return c19Pool.pub[i] }
-func c19Vtx(i int) route.Vertex      { c19InitPool(); return c19Pool.v[i] }
+func c19Vtx(i int) route.Vertex     { c19InitPool(); return c19Pool.v[i] }
 
 // ---------------------------------------------------------------------------
 // graph model
@@ -270,6 +270,29 @@ type c19Hint struct {
 	Delta uint16
 }
 
+// c19HintUpd is a channel_update for a private (hint) edge, as a payment
+// failure from the hint's source node carries it. Signer is the pool index
+// of the key that signs it: the edge's source node (authentic) or another
+// node (forged, must be refused and change nothing).
+type c19HintUpd struct {
+	From   int
+	ID     uint64
+	Base   uint32
+	PPM    uint32
+	Delta  uint16
+	Signer int
+}
+
+func c19Priv(i int) *btcec.PrivateKey {
+	var b [32]byte
+	b[0] = 0x19
+	b[30] = byte(i >> 8)
+	b[31] = byte(i + 1)
+	priv, _ := btcec.PrivKeyFromBytes(b[:])
+
+	return priv
+}
+
 type c19BlindHop struct {
 	Key    int // pool index of the blinded node id; -1 = nil (intro only)
 	Cipher int // cipher text length
@@ -305,12 +328,19 @@ type c19Query struct {
 	BW        map[uint64]uint64
 	BWNil     bool
 	Hints     [][]c19Hint
-	Blinded   []c19BlindPath
-	BlindFeat int // 0 nil, 1 empty vector
-	PayAddr   bool
-	DestFeat  int // -1 nil (look up in graph), else feature kind
-	MetaLen   int // -1 nil
-	CustomLen int // -1 none; else one custom record of that length
+	// InvoiceHints, when set, are the hints the payment session is created
+	// with; HintUpdates are channel updates for those private edges that
+	// the session is handed afterwards (payment-failure path); Hints then
+	// describe the edges after the updates - what a returned route must
+	// respect.
+	InvoiceHints [][]c19Hint
+	HintUpdates  []c19HintUpd
+	Blinded      []c19BlindPath
+	BlindFeat    int // 0 nil, 1 empty vector
+	PayAddr      bool
+	DestFeat     int // -1 nil (look up in graph), else feature kind
+	MetaLen      int // -1 nil
+	CustomLen    int // -1 none; else one custom record of that length
 }
 
 func (q *c19Query) isBlinded() bool { return len(q.Blinded) > 0 }
@@ -350,7 +380,11 @@ func (q *c19Query) destFeatures() *lnwire.FeatureVector {
 // zpayHints renders the hint chains the way an invoice carries them.
 func (q *c19Query) zpayHints() [][]zpay32.HopHint {
 	var out [][]zpay32.HopHint
-	for _, chain := range q.Hints {
+	src := q.Hints
+	if q.InvoiceHints != nil {
+		src = q.InvoiceHints
+	}
+	for _, chain := range src {
 		var hh []zpay32.HopHint
 		for _, h := range chain {
 			hh = append(hh, zpay32.HopHint{
